@@ -152,12 +152,16 @@ def load_corpus():
     if os.path.isdir(cdir):
         for f in sorted(os.listdir(cdir)):
             if f.endswith(".json"):
-                c = json.load(open(os.path.join(cdir, f)))
-                c["src"] = "corpus/" + f
-                c["sel"] = None if c.get("sel") is None else [(bool(e), s) for (e, s) in c["sel"]]
-                c.setdefault("audit", False); c.setdefault("tags", []); c.setdefault("via_cli_accounts", False)
-                c.setdefault("prices_configured", False)
-                out.append(c)
+                c0 = json.load(open(os.path.join(cdir, f)))
+                names = c0.pop("eqa_list", None)
+                for k, name in enumerate(names if names is not None else [c0["eqa"]]):
+                    c = dict(c0)
+                    c["eqa"] = name
+                    c["src"] = "corpus/" + f + ("#%d" % k if names is not None else "")
+                    c["sel"] = None if c.get("sel") is None else [(bool(e), s) for (e, s) in c["sel"]]
+                    c.setdefault("audit", False); c["tags"] = list(c.get("tags", [])); c.setdefault("via_cli_accounts", False)
+                    c.setdefault("prices_configured", False)
+                    out.append(c)
     return out
 
 
@@ -212,7 +216,8 @@ def main(run):
     evaluate(run, cases)
     run.cov["rule"] = ("corpus + seeded journals (1-7 txns, 0-3 commodities incl. none, account trees depth<=4, priced postings in 30%, "
                        "equal time stamps in 30%, audit+uuid in 30%, transaction filter in 25%); selectors: none / exact names / string prefixes / everything / "
-                       "nothing, 25% via --accounts; equity account outside or inside the journal; 15% with price conversion configured; "
+                       "nothing, 25% via --accounts; equity account outside or inside the journal, 8% unusual valid names, 8% invalid names "
+                       "(white space, empty components, bad first character: must be rejected at the settings stage); 15% with price conversion configured; "
                        "source and export each run through the harness (export parsed back with audit off); non-trivial = non-empty export; "
                        "distinct = distinct export texts")
     return run.finish(info)
@@ -227,6 +232,11 @@ def evaluate(run, cases):
         stages[st] = stages.get(st, 0) + 1
         c["stage"] = st
         c["usable"] = False
+        for t in c["tags"] or ["corpus"]:
+            tagc[t] = tagc.get(t, 0) + 1
+        c["name_ok"] = eq_account_ok(c["eqa"])
+        c["stage_err"] = (r or {}).get("err")
+        c["accepted"] = None if st in ("none", "config", "harness", "request", "panic", "abort", "timeout") else (st != "settings")
         if st != "done":
             continue
         txns, eq, bal = r["results"]
@@ -254,10 +264,11 @@ def evaluate(run, cases):
             c["reparse_error"] = {k: r.get(k) for k in ("stage", "err", "results")} if r else None
     terms, idx = [], []
     for i, c in enumerate(cases):
-        if not c["usable"]:
+        if c["accepted"] is not None:
+            terms.append("c10_name_case %s %s" % (g_acct(c["eqa"]), g_bool(c["accepted"])))
+            idx.append(("name", i))
+        if not c["usable"] or not c["name_ok"]:
             continue
-        for t in c["tags"] or ["corpus"]:
-            tagc[t] = tagc.get(t, 0) + 1
         ts = list(c["txns"])
         descs = [t["desc"] for t in ts]
         if len(set(descs)) == len(descs) and None not in descs:
@@ -269,18 +280,40 @@ def evaluate(run, cases):
             impl = "(Some (%s, %s))" % (g_list([g_itxn(t) for t in rp["txns"]]), g_report(rp["balance"]))
         terms.append("c10_case %s %s %s %s %s" % (g_list([g_txn(t) for t in ts]), g_acct(c["eqa"]), g_sel(c["sel"]),
                                                   impl, g_rows(c["src_sel_rows"])))
-        idx.append(i)
+        idx.append(("case", i))
     vals, errs = coq_eval("C10", IMPORTS, terms)
     if errs:
         raise Infra("coq evaluation failed: " + errs[0])
     distinct = set()
     n_dom = n_warn = n_bal = n_empty = 0
     corpus_bits = {}
-    for j, v in zip(idx, vals):
+    names = {"invalid_rejected": 0, "valid_accepted": 0}
+    for (kind, j), v in zip(idx, vals):
         c = cases[j]
         bits = as_N(v)
         if bits is None:
             raise Infra("no result for case %d (%s)" % (j, c["src"]))
+        if kind == "name":
+            agree = bool(bits & 1)
+            if agree != (c["name_ok"] == c["accepted"]):
+                raise Infra("python and Coq eq_account_ok differ on %r" % c["eqa"])
+            if agree:
+                names["valid_accepted" if c["accepted"] else "invalid_rejected"] += 1
+                if not c["accepted"]:
+                    run.cov["evaluations"] += 1
+            elif c["accepted"]:
+                # an invalid name got through the configuration
+                if c.get("export") and c.get("reparse") is None:
+                    run.violation("equity export written with an invalid equity account name is not accepted as a journal "
+                                  "(the configuration should have been rejected)", replay_obj(c))
+                else:
+                    run.violation("Settings accepted an equity account name outside Equity_spec.eq_account_ok "
+                                  "(no unreadable export on this input)",
+                                  dict(replay_obj(c), correspondence="C10_corr.c10_name_case"), found_input=False)
+            else:
+                run.violation("a grammar-valid equity account name (Equity_spec.eq_account_ok) is rejected by the configuration",
+                              dict(replay_obj(c), correspondence="C10_corr.c10_name_case", stage_error=c.get("stage_err")), found_input=False)
+            continue
         run.cov["evaluations"] += 1
         exp = c.get("export") or ""
         if exp.strip():
@@ -312,7 +345,8 @@ def evaluate(run, cases):
                           dict(replay_obj(c), correspondence="C10_corr.c10_case"), found_input=False)
     run.cov["distinct_nontrivial"] = len(distinct)
     run.notes.update({"stages": stages, "tags": tagc, "in_exact_domain": n_dom, "exports_with_warning": n_warn,
-                      "exports_with_balancing_posting": n_bal, "empty_exports": n_empty, "corpus_bits": corpus_bits})
+                      "exports_with_balancing_posting": n_bal, "empty_exports": n_empty, "corpus_bits": corpus_bits,
+                      "equity_account_names": names})
 
 
 def replay(run, path):
@@ -327,6 +361,7 @@ def replay(run, path):
     c = {"text": rp["journal"], "eqa": rp["equity_account"], "sel": None if spec is None else [(bool(e), t) for (e, t) in spec],
          "audit": bool(rp.get("audit")), "tags": ["replay"], "via_cli_accounts": rp.get("selectors_given_as") == "--accounts",
          "prices_configured": bool(rp.get("price_conversion_configured")), "filter": rp.get("txn_filter"), "src": "replay"}
+    print("equity account name %r: eq_account_ok = %s" % (c["eqa"], eq_account_ok(c["eqa"])))
     ok, log = coq_make(["corr/C10_corr.vo"])
     if not ok:
         raise Infra("coq build failed:\n" + log[-2000:])
